@@ -200,6 +200,9 @@ func raceC15(seed uint64, rounds int) string {
 			if k%2 == 1 {
 				body += fmt.Sprintf(`<s :range="i, x : xs extra%d + 1 ( ]"></s>`, k)
 			}
+			// a self-closed raw-text element at the top level: its close tag is a node of its own (built by another path
+			// of the scanner than ordinary tags) and is executed by every goroutine
+			body += fmt.Sprintf(`<script src="/s%d.js" /></script><title :text="${name}" /></title>`, k)
 			files = append(files, [2]string{fmt.Sprintf("e%d.html", k), body})
 		}
 		cfg := tmplCfg{ap: ":", tp: "t:", global: map[string]any{}}
